@@ -194,6 +194,8 @@ double ndsplineeval(const struct splinetable* table, const double* x,
                     const int* centers, int derivatives){
 	try{
 		const auto& real_table=*static_cast<const photospline::splinetable<>*>(table->data);
+		if(real_table.get_ndim()==0) //an empty table cannot be evaluated
+			return(std::numeric_limits<double>::quiet_NaN());
 		return(real_table.ndsplineeval(x,centers,derivatives));
 	}catch(...){
 		return(std::numeric_limits<double>::quiet_NaN());
@@ -204,6 +206,10 @@ void ndsplineeval_gradient(const struct splinetable* table, const double* x,
                            const int* centers, double* evaluates){
 	const auto& real_table=*static_cast<const photospline::splinetable<>*>(table->data);
 	try{
+		if(real_table.get_ndim()==0){ //an empty table cannot be evaluated
+			evaluates[0]=std::numeric_limits<double>::quiet_NaN();
+			return;
+		}
 		real_table.ndsplineeval_gradient(x,centers,evaluates);
 	}catch(std::exception& ex){
 		//there is no return value to report failure (e.g. too many dimensions)
@@ -219,6 +225,8 @@ double ndsplineeval_deriv(const struct splinetable* table, const double* x,
                            const int* centers, const unsigned int *derivatives){
 	try{
 		const auto& real_table=*static_cast<const photospline::splinetable<>*>(table->data);
+		if(real_table.get_ndim()==0) //an empty table cannot be evaluated
+			return(std::numeric_limits<double>::quiet_NaN());
 		return(real_table.ndsplineeval_deriv(x,centers,derivatives));
 	}catch(...){
 		return(std::numeric_limits<double>::quiet_NaN());
